@@ -34,7 +34,8 @@ TRUSTED = ['numpy array storage in LogPass.FrameChannel (init_array, item assign
 
 
 def register(reg):
-    c07.register_bit(reg)
+    # the IBM float decoders are BIT's own value decoders: verified here too (same contracts as under C07)
+    c07.register_bit(reg, verify=True)
     reg.add_spec_source(SPEC)
     register_tif_walk(reg)
     C = 'len(self.channel_names)'
@@ -138,7 +139,8 @@ from TotalDepth.BIT import ReadBIT
 rnd = random.Random(%d)
 bad = []
 cases = 0
-VALUES = [0, 1, -1, 153, Fraction(1, 2), Fraction(-949, 8), 16, 4096, Fraction(1, 16), 255, -4095]
+VALUES = [0, 1, -1, 153, Fraction(1, 2), Fraction(-949, 8), 16, 4096, Fraction(1, 16), 255, -4095,
+          Fraction(16) ** 62, -Fraction(16) ** 62 * 3, Fraction(1, 16 ** 64), Fraction(5, 16 ** 60), Fraction(16) ** 40 * 7]   # exponent fields 0x7f, 0x00 ...
 for it in range(%d):
     passes = []
     for _ in range(rnd.randint(1, 3)):
